@@ -34,7 +34,9 @@ class watchdog:
 
     def __enter__(self):
         signal.signal(signal.SIGALRM, _alarm)
-        signal.setitimer(signal.ITIMER_REAL, self.seconds)
+        # repeating: an alarm that lands inside a destructor / generator cleanup is
+        # "ignored" by the interpreter, so keep firing every second until cancelled
+        signal.setitimer(signal.ITIMER_REAL, self.seconds, 1.0)
         return self
 
     def __exit__(self, *exc):
@@ -57,7 +59,7 @@ def main():
             os._exit(0)
     except Exception:  # noqa
         pass
-    sys.setrecursionlimit(6000)
+    sys.setrecursionlimit(3000)
     rin = os.fdopen(fd_in, "r", encoding="utf-8")
     wout = os.fdopen(fd_out, "w", encoding="utf-8")
     from lib import env
